@@ -31,12 +31,15 @@ Proof. exact inv_delete. Qed.
     level contents conform; the history starts from a merged state without
     edits; every operation navigates from the root and is a read (get, contains,
     len, keys), a deletion (del, pop, popitem, clear), a write of LEAVES where the
-    schema has leaves (set, setdefault with or without default, update), or a
-    reload of the defaults / overrides / collection level with conforming data.
+    schema has leaves (set, setdefault with or without default, update), a
+    reload of the defaults / overrides / collection level with conforming data,
+    or load_shell_env with ANY environment (its level is computed by
+    Environment.load against the merged view; C16's theorems give that it is a
+    well-formed dict conforming to the schema).
     MISSING w.r.t. the full statement: dict-valued writes (false: F-C06a), held
-    proxies (false: F-C06e, F-C06b), load_shell_env / file levels / clone inside
-    the history (swept below and exercised by the correspondence), comparison of
-    returned values (the
+    proxies (false: F-C06e, F-C06b; see the held-proxy theorem below for what
+    does hold), file levels / clone inside the history (swept below and
+    exercised by the correspondence), comparison of returned values (the
     theorem is about the view; outcomes are covered by "no internal error" and by
     the sweep).
     Under the guard the view after the history shows, at every path, exactly
@@ -85,17 +88,18 @@ Theorem C06_refines_nested_dict_held_partial : forall S fs c0 ops,
   let c := s_cfg (fst (srun fs (sstart c0) ops)) in
   exists X, merge_all (lower c) [] = Ok X /\ wf (Node X) = true /\
             sim (Node (c_cache c)) (Node (replay (Node X) (sjournal fs (sstart c0) ops))) /\
-            Forall (fun ov => forall e, fst (fst ov) = OErr e -> e = EKey \/ e = EAttr \/ e = EType)
+            Forall (fun ov => forall e, fst (fst ov) = OErr e -> e = EKey \/ e = EAttr \/ e = EType \/ e = EAmbigEnv \/ e = EValue \/ e = EUncastable)
                    (snd (srun fs (sstart c0) ops)).
 Proof. exact refines_nested_dict_held. Qed.
 
 (** Under the same guard no operation fails with anything but KeyError /
     AttributeError for a missing key (or the TypeError of walking through a leaf,
-    which a nested dict raises too): no AmbiguousMergeError, no error from
-    [excise]/[obliterate], ever. *)
+    which a nested dict raises too) or one of the three documented refusals of
+    load_shell_env: no AmbiguousMergeError, no error from [excise]/[obliterate],
+    ever. *)
 Theorem C06_no_internal_error_partial : forall S fs c0 ops,
   is_node S = true -> good0 S c0 = true -> forallb (op_ok S) ops = true ->
-  Forall (fun ov => forall e, fst ov = OErr e -> e = EKey \/ e = EAttr \/ e = EType)
+  Forall (fun ov => forall e, fst ov = OErr e -> e = EKey \/ e = EAttr \/ e = EType \/ e = EAmbigEnv \/ e = EValue \/ e = EUncastable)
          (snd (run fs c0 ops)).
 Proof. exact no_internal_error. Qed.
 
@@ -173,6 +177,7 @@ Example C06_example_guarded_history :
   let d0 := Node [("a", Node [("x", Leaf (VInt 0)); ("y", Leaf (VInt 0))]); ("k", Leaf (VInt 1))] in
   let ops := [SetV Item ["a"] "x" (Leaf (VInt 1)); Del Attr ["a"] "y"; Pop Item [] "k" None;
               LoadDefaults (Node [("a", Node [("y", Leaf (VInt 5))]); ("k", Leaf (VInt 2))]);
+              LoadShellEnv [("INVOKE_A_X", "7"); ("INVOKE_K", "4")];
               SetV Attr [] "k" (Leaf (VInt 3))] in
   match start [] (mkInit d0 (Node []) None None false) with
   | Ok c0 =>
